@@ -1386,7 +1386,20 @@ impl TheRing<'_> {
 
         // TODO: the above fails to handle the fact that PlainSessionKey::Unknown will not compare correctly
 
-        let is_consistent = is_sks_consistent && is_skesk_consistent && is_pkesk_consistent;
+        let mut is_consistent = is_sks_consistent && is_skesk_consistent && is_pkesk_consistent;
+
+        // compare the representatives of the groups with each other
+        let candidates: Vec<&PlainSessionKey> = pkesk_session_key
+            .iter()
+            .map(|(_, k)| k)
+            .chain(skesk_session_key.iter().map(|(_, k)| k))
+            .chain(sks_session_key.iter())
+            .collect();
+        if let Some((first, rest)) = candidates.split_first() {
+            if rest.iter().any(|k| k != first) {
+                is_consistent = false;
+            }
+        }
 
         if !is_consistent {
             bail!("inconsistent session keys detected");
